@@ -2,6 +2,7 @@ package main
 
 import (
 	"fmt"
+	"io"
 	"regexp"
 	"strings"
 
@@ -338,7 +339,18 @@ func c02Model(o Opts, rng *Rng, res *Result, zctx *zed.Context, sb *strings.Buil
 		text := `"` + body + trail
 		var dec string
 		err := guarded(func() error {
-			ast, err := zson.NewParser(strings.NewReader(text)).ParseValue()
+			// The model knows nothing of how the text arrives: the literal is handed
+			// to the real parser whole or in adversarial chunks, in rotation.
+			var rd io.Reader = strings.NewReader(text)
+			switch len(scanCases) % 4 {
+			case 1:
+				rd = fixedChunks(1)(text)
+			case 2:
+				rd = cutInsideRunes(text)
+			case 3:
+				rd = randomChunks(text)
+			}
+			ast, err := zson.NewParser(rd).ParseValue()
 			if err != nil {
 				return err
 			}
